@@ -3,6 +3,9 @@
 #if YACLIB_FAULT_ATOMIC == 2
 #  include <yaclib/fault/detail/atomic.hpp>
 #  include <yaclib/fault/detail/fiber/atomic.hpp>
+#  ifdef YACLIB_VERIF
+#    include <yaclib/fault/detail/fiber/verif_atomic.hpp>
+#  endif
 
 #  include <atomic>
 
